@@ -11,7 +11,8 @@
              tree writes first   ->  no_write_outside_stack_refuted + .._partial, and a VIOLATION. *)
 From Coq Require Import ZArith List Arith Bool.
 From NV Require Import Gen.Opcodes Verifier.Shape Verifier.Effect.
-From NV Require Import VM.StackBound VM.StackBoundProofs VM.StackBoundRun.
+From NV Require Import VM.StackBound VM.StackBoundProofs VM.StackBoundRun VM.StackBoundSound.
+From NV Require Import Verifier.Verify.
 From NV Require Import Base.TMap GC.GCModel GC.GCSpec.
 Import ListNotations.
 Local Open Scope Z_scope.
@@ -148,6 +149,39 @@ Theorem limited_run_never_oob :
     run_limited prog handler np is_entry entry v S s obs i <> OobAt j idx.
 Proof. exact StackBoundRun.limited_run_never_oob. Qed.
 Print Assumptions limited_run_never_oob.
+
+(* ---- discharging the consistency hypothesis; verified code -------------------------------------- *)
+
+(* The write-plan table agrees with the stack-effect table of the shape machine (Effect.decode, the
+   table C07's lock-step ties to the real VM): every step the shape machine accepts is consistent
+   with the plan of the executed instruction -- for every program, every state, every observation. *)
+Theorem all_consistent_checked :
+  forall prog handler np is_entry entry obs s,
+    all_consistent prog handler np is_entry entry checked s obs.
+Proof. exact StackBoundSound.all_consistent_checked. Qed.
+Print Assumptions all_consistent_checked.
+
+(* so, for the check-first tree, without any hypothesis on the run: *)
+Theorem limit_fires_iff_needed_checked :
+  forall prog handler np is_entry entry obs S s i,
+    sp_of s < S ->
+    run_limited prog handler np is_entry entry checked S s obs i =
+    first_need_obs prog handler np is_entry entry S s obs i.
+Proof. exact StackBoundSound.limit_fires_iff_needed_checked. Qed.
+Print Assumptions limit_fires_iff_needed_checked.
+
+(* Verified code (C07's check_all) under ANY configured stack size, along EVERY observation
+   sequence: no step writes outside the stack, the machine never crashes, and "stack too large"
+   is reported exactly at the first step whose resulting sp is >= the size. *)
+Theorem verified_run_under_limit :
+  forall prog exct metas entry certs,
+    check_all prog exct metas entry certs = true ->
+    forall S obs, 0 <= S ->
+      let r := run_limited prog (Verify.handler exct) (Verify.np metas) (Verify.is_entry metas) entry checked S init obs 0 in
+      (forall j idx, r <> OobAt j idx) /\ (forall c, r <> LOther (Crash c)) /\
+      r = first_need_obs prog (Verify.handler exct) (Verify.np metas) (Verify.is_entry metas) entry S init obs 0.
+Proof. exact StackBoundSound.verified_run_under_limit. Qed.
+Print Assumptions verified_run_under_limit.
 
 (* ---- heap -------------------------------------------------------------------------------------- *)
 
